@@ -6,9 +6,12 @@ import sys as _s
 SRC = _s.argv[1] if len(_s.argv) > 1 else "/tmp/seed4"
 SUF = tuple(_s.argv[2].split(",")) if len(_s.argv) > 2 else ("G", "H")
 RND = int(_s.argv[3]) if len(_s.argv) > 3 else 4
+ONLY = set(_s.argv[4].split(",")) if len(_s.argv) > 4 else None      # optional: restrict to these property ids
 jobs = []
 for i in range(1, 20):
     pid = f"C{i:02d}"
+    if ONLY and pid not in ONLY:
+        continue
     for src, dst in (("A", SUF[0]), ("B", SUF[1])):
         d = f"{SRC}/{pid}/{src}"
         if os.path.exists(d + "/patch.diff") and os.path.exists(d + "/demo.py"):
